@@ -169,3 +169,27 @@ PROPS["C14"] = dict(
                "provoked from outside (internal OpenSSL/GnuTLS failures) are not covered.",
     design_ref="DESIGN.md section 7, C14",
 )
+
+
+PROPS["C04"] = dict(
+    level="model_checking", exhaustive=True,
+    stages=lambda tier, seed: [
+        mc("lattice", "MC_C04", "MC_C04_%s.cfg" % tier),
+        gen("walk", G.c04_walks(4000 if tier == "quick" else 200000)),
+    ],
+    rule="from MC_C04: boundary lattice exp - (now - leeway) and nbf - (now + leeway) in {-2..2} for now in "
+         "{0, 1.7e9, 2^40} x leeway in {-1, 0, 1, 300, 2^31, 2^40}, far values and 64-bit extremes, defaults without "
+         "any configuration call, both claims at once, every JSON type in place of exp/nbf, 17 expected/actual string "
+         "pairs (prefix, suffix, case, empty, non-ASCII, embedded NUL, wrong type, absent) for iss/sub/aud, all "
+         "combinations of three string checks; all sequences of up to 2 (quick) / 3 (thorough) configuration calls "
+         "over a 12-call alphabet followed by five probe tokens; every case with an unsigned and an HS256-signed "
+         "token. Plus seeded random cases with uniformly drawn 64-bit exp/nbf, clocks and leeways. 64-bit values are "
+         "compared in TLC as limb triples (Wide.tla). distinct = distinct scripts.",
+    assumptions=ASSUME_COMMON,
+    level_text="Exhaustive on the boundary lattice and the bounded configuration histories (TLC shows the reference "
+               "satisfies C04 there), every case executed against libjwt and judged in both directions: accepted "
+               "only if the configured checks pass, and rejected for no other reason than a configured check on "
+               "otherwise acceptable tokens.",
+    level_note="'Exactly as configured' is read as iff for otherwise acceptable tokens; values between the lattice points are sampled.",
+    design_ref="DESIGN.md section 7, C04",
+)
